@@ -187,6 +187,10 @@ impl Prop for C02 {
         eval_stream(&i.stream, i.cap, obs)
     }
 
+    fn generator_counters() -> Vec<(String, u64)> {
+        vec![("payloads-with-a-checksum-byte-steered-to-1b/1a/00/01".into(), crate::gen::payload::CRC_GROUND.load(std::sync::atomic::Ordering::Relaxed))]
+    }
+
     fn to_kv(i: &Input) -> Kv {
         let mut kv = Kv::new();
         kv.put_b("stream", &i.stream).put_u("cap", i.cap as u64);
